@@ -539,6 +539,12 @@ def check_run(run, stats_helper, Entry):
         if ty not in raw_by_type:
             continue
         raw = dict(raw_by_type[ty])
+        # times at which a record of this type is keyed with a restart count other than its step's (stale hook counter)
+        stale_times = set()
+        for a in atts:
+            kf = expected_key_fields(a, ty)
+            if Entry(**kf) not in raw and any(all(getattr(k, f) == kf[f] for f in FIELDS if f != 'num_restarts') for k in raw):
+                stale_times.add(kf['time'])
         # O3/O4: every accepted step has exactly one record under its true key
         want = {}
         for a in acc:
@@ -604,7 +610,7 @@ def check_run(run, stats_helper, Entry):
                 cause = 'unknown'
                 if k.time in aliased_times:
                     cause = 'restart_counter_aliasing'
-                elif s is None:
+                elif s is None or k.time in stale_times:
                     cause = 'stale_hook_counter'
                 add('recomputed_filter_keeps_superseded', 'filter_stats(type=%r, recomputed=False) returns a record of a superseded step: %s' % (ty, k),
                     cause=cause, type=ty, hook=HOOK_OF.get(ty), key=str(k))
@@ -616,7 +622,7 @@ def check_run(run, stats_helper, Entry):
                 cause = 'unknown'
                 if a['time'] in aliased_times or a['tend'] in aliased_times:
                     cause = 'restart_counter_aliasing'
-                elif not any(ident(k) == idn and k.num_restarts == a['nr'] for k in raw):
+                elif not any(ident(k) == idn and k.num_restarts == a['nr'] for k in raw) or expected_key_fields(a, ty)['time'] in stale_times:
                     cause = 'stale_hook_counter'
                 add('recomputed_filter_drops_accepted', 'filter_stats(type=%r, recomputed=False) drops the record of the accepted step at t=%r '
                     '(slot %d, restart count %s): %d records for %d accepted steps' % (ty, a['time'], a['slot'], a['nr'], len(flt), len(acc)),
@@ -665,3 +671,23 @@ def check_run(run, stats_helper, Entry):
         if list(stats.keys()) != list(merged.keys()):
             add('merge_order', 'Controller.return_stats does not keep the hook-by-hook insertion order')
     return F, info
+
+
+def run_config_guarded(cfg, seconds):
+    """run_config under an alarm (main thread only): a run that does not come back is skipped, not judged."""
+    import signal
+
+    class _Timeout(BaseException):
+        pass
+
+    def handler(signum, frame):
+        raise _Timeout()
+    old = signal.signal(signal.SIGALRM, handler)
+    signal.alarm(int(seconds))
+    try:
+        return run_config(cfg)
+    except _Timeout:
+        return {'error': 'timeout', 'stats': None, 'events': []}
+    finally:
+        signal.alarm(0)
+        signal.signal(signal.SIGALRM, old)
